@@ -110,3 +110,6 @@ pub proof fn lemma_time_split(h: int, mi: int, s: int, ms: int, us: int, ns: int
     vstd::arithmetic::div_mod::lemma_fundamental_div_mod_converse(t, 1_000_000, ((h * 60 + mi) * 60 + s) * 1000 + ms, time_ns(0, 0, 0, 0, us, ns));
     vstd::arithmetic::div_mod::lemma_fundamental_div_mod_converse(t, 1000, (((h * 60 + mi) * 60 + s) * 1000 + ms) * 1000 + us, ns);
 }
+
+/// the day carry handed out by BalanceTime: saturated at the i32 bounds (never wrapped)
+pub open spec fn sat32(v: int) -> int { if v < i32::MIN { i32::MIN as int } else if v > i32::MAX { i32::MAX as int } else { v } }
